@@ -25,7 +25,8 @@ import OSq.Model.Front
   * `call_accept_wf_typed`           (C13/C20, `tableTyped` table) appended statement is named `⟨resolved name, converted
                                args⟩`, `#args = #params`, kinds as declared, and `Stmt.wf` holds.
   * `call_accept_wf_partial`   arbitrary table: all of the above except "gate operands in range" (false in general,
-                               `call_accept_wf_needs_typed`), with "operands are qubit-or-int arguments" instead.
+                               `call_accept_wf_needs_typed`), with "operands are qubit-or-int arguments" instead;
+                               plus `tableTyped → Stmt.wf`.
   * `coherent_by_construction` re-running the generator on the recorded name and arguments gives the recorded
                                statement (`callGate … nm.name nm.args = .ok (g, nm)`).
   * `comment_accept_wf`, `step_wf`, `builder_wf_partial`   any sequence of requests to a fresh builder yields `Circuit.wf`.
@@ -454,7 +455,7 @@ theorem call_accept_wf_typed {atol : α} {lib : GateLib} (hT : tableTyped lib.ta
   obtain ⟨h1, _, h3, _, _⟩ := checkArgs_ok hc
   exact ⟨s, n, ps, as, rfl, rfl, rfl, hs, hc, hl, h1, h3, (build_named hs hc hb).1, build_wf hT hs hc hb⟩
 
-/- Intended statement of `call_accept_wf_typed`: the same for an *arbitrary* table.  That is false, in the model and in
+/- Intended statement (`call_accept_wf`): the same for an *arbitrary* table.  That is false, in the model and in
    Python alike: `named_gate` converts by annotation, so a user gate `def bad(q: QubitLike, k: SupportsInt): return
    CNOT(q, k)` turns the unchecked integer `k` into a qubit index (`Qubit(Int(k))` is legal); the builder checks
    only `q`.  See `call_accept_wf_needs_typed` below for the counterexample.  What holds for an arbitrary table: -/
@@ -563,7 +564,9 @@ theorem step_wf {atol : α} {lib : GateLib} (hT : tableTyped lib.table = true) (
         Bool.and_true, Bool.and_eq_true]
       exact ⟨hb, hwf⟩
 
-/-- **`builder_wf_partial`**: whatever sequence of requests (accepted or refused) is made to a fresh builder, the
+/- Intended statement (`builder_wf`): the same without the hypothesis `tableTyped` — false, see
+   `call_accept_wf_needs_typed`. -/
+/-- **`builder_wf_partial`**: for a table obeying `tableTyped`, whatever sequence of requests (accepted or refused) is made to a fresh builder, the
     circuit it hands out is well formed. -/
 theorem builder_wf_partial {atol : α} {lib : GateLib} (hT : tableTyped lib.table = true) (nq nb : Nat)
     (cmds : List (Cmd α)) :
